@@ -113,6 +113,7 @@ pub fn swap_facts(ctx: &Ctx, p: &PairModel) -> Option<SwapFacts> {
 
 pub fn run(ctx: &Ctx, cov: &mut Cover) {
     generic_failure(ctx, cov);
+    c02_case(ctx, cov);
     c03_share_value(ctx, cov);
     c05g_locked_unit(ctx, cov);
     c07_third_parties(ctx, cov);
@@ -417,6 +418,63 @@ fn diff_maps(exp: &DeltaMap, act: &DeltaMap) -> Vec<String> {
     out
 }
 
+/// the enumerated message-shape cell of a direct swap (counted for every outcome)
+fn c02_case(ctx: &Ctx, cov: &mut Cover) {
+    let (pi, offer, to, funds, hook) = match swap_parts(ctx) {
+        Some(x) => x,
+        None => return,
+    };
+    let p = match ctx.model.std_pair(pi) {
+        Some(p) => p,
+        None => return,
+    };
+    let ko = ctx.model.asset_key(&offer.asset).unwrap_or_default();
+    let v = offer.amount.u128();
+    let named = match p.index_of_key(&ko) {
+        Some(_) if matches!(offer.asset, AssetRef::Native(_)) => "pair-native",
+        Some(_) => "pair-cw20",
+        None if matches!(offer.asset, AssetRef::Native(_)) => "foreign-native",
+        None => "foreign-cw20",
+    };
+    let rel = |x: u128| if x == v { "eq" } else if x == 0 { "zero" } else if x < v { "less" } else { "more" };
+    let delivered = match &hook {
+        None => {
+            let att: u128 = funds
+                .iter()
+                .filter(|f| crate::ledger::native_key(&f.denom) == ko)
+                .map(|f| f.amount.u128())
+                .sum();
+            let extra = funds.iter().filter(|f| crate::ledger::native_key(&f.denom) != ko).count();
+            format!("exec|att-{}|extra{}", rel(att), extra.min(2))
+        }
+        Some((Via::Rogue, sent)) => format!("hook-rogue|sent-{}", rel(*sent)),
+        Some((Via::Cw20(a), sent)) => {
+            let kv = ctx.model.asset_key(a).unwrap_or_default();
+            let cls = if kv == ko {
+                "same"
+            } else if kv == p.lp_key() {
+                "lp-token"
+            } else if p.index_of_key(&kv).is_some() {
+                "other-pair-asset"
+            } else {
+                "foreign"
+            };
+            format!("hook-{}|sent-{}", cls, rel(*sent))
+        }
+    };
+    let to_class = match &to {
+        None => "none",
+        Some(AddrRef::Actor(a)) if a == ctx.sender => "self",
+        Some(AddrRef::Actor(_)) => "actor",
+        Some(AddrRef::Raw(_)) => "fresh",
+        Some(_) => "contract",
+    };
+    cov.case(
+        "C02",
+        format!("{}|{}|{}|to-{}|{}", p.kind(), named, delivered, to_class, ctx.outcome.tag()),
+    );
+}
+
 /// C02: settlement moves exactly the declared asset and amounts
 fn c02_settlement(ctx: &Ctx, cov: &mut Cover) {
     let (pi, offer, to, funds, hook) = match swap_parts(ctx) {
@@ -432,28 +490,6 @@ fn c02_settlement(ctx: &Ctx, cov: &mut Cover) {
         None => return,
     };
     let v = offer.amount.u128();
-    let delivered_class = match &hook {
-        None => "exec".to_string(),
-        Some((Via::Rogue, _)) => "via-rogue".to_string(),
-        Some((Via::Cw20(a), sent)) => {
-            let kv = ctx.model.asset_key(a).unwrap_or_default();
-            format!(
-                "{}{}",
-                if kv == ko { "same" } else if p.index_of_key(&kv).is_some() { "other-pair-asset" } else { "foreign" },
-                if *sent == v { "" } else { "-amt-differs" }
-            )
-        }
-    };
-    cov.case(
-        "C02",
-        format!(
-            "{}|{}|named={}|funds{}|ok",
-            p.kind(),
-            delivered_class,
-            if p.index_of_key(&ko).is_some() { "pair-asset" } else { "foreign" },
-            funds.len()
-        ),
-    );
     let oi = match p.index_of_key(&ko) {
         Some(i) => i,
         None => {
@@ -1111,13 +1147,35 @@ fn c07_third_parties(ctx: &Ctx, cov: &mut Cover) {
     } else {
         "actor"
     };
+    let recv_class = match receivers.iter().find(|r| *r != ctx.sender) {
+        None => "self",
+        Some(r) if m.bystanders.contains(r) => "bystander",
+        Some(r) if m.actors.contains(r) => "actor",
+        Some(r) if m.is_contract(r) => "contract",
+        Some(_) => "fresh",
+    };
+    let pk = match &ctx.ev.op {
+        Op::Provide { pair, .. } | Op::Withdraw { pair, .. } | Op::SwapExec { pair, .. } | Op::SwapHook { pair, .. } => {
+            m.pairs.get(*pair).map(|p| p.kind()).unwrap_or("?")
+        }
+        Op::RouteExec { hops, .. } | Op::RouteHook { hops, .. } => match hops.len() {
+            0 => "h0",
+            1 => "h1",
+            2 => "h2",
+            3 => "h3",
+            _ => "h4+",
+        },
+        _ => "-",
+    };
     cov.case(
         "C07",
         format!(
-            "{}|{}|recv{}",
+            "{}|{}|{}|recv-{}|changes{}",
             ctx.ev.op.kind(),
+            pk,
             role,
-            receivers.iter().filter(|r| *r != ctx.sender).count()
+            recv_class,
+            ctx.view.delta.bal.len().min(8)
         ),
     );
     cov.eval("C07", "a");
